@@ -480,9 +480,14 @@ fn check_alphabet(symbols: &[u8], cc: &mut CaseCtx) {
         let back = rt.alphabet();
         let back_ok = back == a && back.len() == a.len() && (0..=255u8).all(|c| back.is_word(&[c]) == a.is_word(&[c]));
         let back_syms: Vec<usize> = back.symbols.iter().collect();
-        (a.len(), a.is_empty(), a.max_symbol(), single, a == b, ranks, n_ranks, back_ok, back_syms)
+        // transform() of the text "every symbol, ascending, then descending" (get() per symbol and
+        // transform() of a text are separate code paths)
+        let mut text = sorted.clone();
+        text.extend(sorted.iter().rev());
+        let tr = rt.transform(&text);
+        (a.len(), a.is_empty(), a.max_symbol(), single, a == b, ranks, n_ranks, back_ok, back_syms, tr)
     });
-    let (len, empty, max, single, same, ranks, n_ranks, back_ok, back_syms) = match r {
+    let (len, empty, max, single, same, ranks, n_ranks, back_ok, back_syms, tr) = match r {
         Ok(x) => x,
         Err(msg) => {
             cc.violation("C20/alphabet/panic", msg);
@@ -509,6 +514,11 @@ fn check_alphabet(symbols: &[u8], cc: &mut CaseCtx) {
         );
     }
     let exp: Vec<u8> = (0..sorted.len()).map(|i| i as u8).collect();
+    let mut exp_tr = exp.clone();
+    exp_tr.extend(exp.iter().rev());
+    if tr != exp_tr {
+        cc.violation("C20/rank-transform/transform-differs", format!("transform of all symbols ascending+descending = {:?}, expected {:?}", tr, exp_tr));
+    }
     if ranks != exp || n_ranks != sorted.len() {
         cc.violation(
             "C20/rank-transform/not-an-order-preserving-bijection",
